@@ -276,11 +276,11 @@ def _hbuild(name, sources, flavour, extra=(), libs=('-lz',), need_reflect=False,
 
 # ----------------------------------------------------------------------------- environment for runs
 
-def san_env(extra=None, leaks=False):
+def san_env(extra=None, leaks=True):
     e = dict(os.environ)
     e['ASAN_OPTIONS'] = ('abort_on_error=0:exitcode=99:detect_leaks=%d:allocator_may_return_null=0:'
                          'detect_stack_use_after_return=0:handle_abort=1:malloc_context_size=12:'
-                         'max_allocation_size_mb=1024' % (1 if (leaks or os.environ.get('VERIF_LEAKS')) else 0))
+                         'max_allocation_size_mb=1024' % (1 if leaks else 0))
     e['UBSAN_OPTIONS'] = 'print_stacktrace=1:halt_on_error=1:exitcode=98'
     e['LSAN_OPTIONS'] = 'exitcode=97'
     e['TSAN_OPTIONS'] = 'halt_on_error=0:exitcode=0:second_deadlock_stack=1'
